@@ -400,6 +400,20 @@ pub fn families(tier: Tier) -> Vec<Family> {
     v
 }
 
+/// Hostile / non-chronological inputs for C04 (the byte-noise families add
+/// little there: their maps are mostly empty).
+pub fn families_for_c04(tier: Tier) -> Vec<Family> {
+    if tier.thorough() {
+        return families(tier).into_iter().skip(1).collect();
+    }
+    vec![
+        fam_deviations(1, vec![(0, 14), (1, 14), (2, 14), (3, 14), (0, 7)]),
+        fam_line_mutations(),
+        fam_splices(),
+        fam_two_lines(false),
+    ]
+}
+
 // ---------------------------------------------------------------------------
 // oracles
 
